@@ -5,6 +5,7 @@
 import ZvtVerif.Derive
 import ZvtVerif.Generated
 import ZvtVerif.Sequence
+import ZvtVerif.Client
 namespace Zvt.Driver
 open Zvt
 
@@ -281,7 +282,128 @@ def opSeq (name : String) (input : Bytes) (items : List Bytes) : String :=
 def parseItems (s : String) (sep : String) : Option (List Bytes) :=
   (s.splitOn sep).mapM parseHex
 
+/-! ### `client` op -/
+
+def parseKV (toks : List String) : List (String × String) :=
+  toks.filterMap fun t => match t.splitOn "=" with
+    | k :: rest => if rest.isEmpty then none else some (k, "=".intercalate rest)
+    | [] => none
+
+def kvGet (kv : List (String × String)) (k : String) : Option String := (kv.find? (·.1 = k)).map (·.2)
+
+def strOfHex (h : String) : Option (List Nat) := (parseHex h).bind utf8Decode
+
+def parseCfg (s : String) : Option Cfg :=
+  let kv := parseKV ((s.splitOn " ").filter (· ≠ ""))
+  match (kvGet kv "max").bind (·.toNat?), (kvGet kv "amount").bind (·.toNat?), (kvGet kv "currency").bind (·.toNat?),
+        (kvGet kv "password").bind (·.toNat?), (kvGet kv "timeout").bind (·.toNat?),
+        (kvGet kv "serial").bind strOfHex, (kvGet kv "tid").bind strOfHex with
+  | some m, some a, some c, some p, some t, some ser, some tid =>
+    some { maxTx := m, amount := a, currency := c, password := p, readCardTimeout := t, serial := ser,
+           terminalId := if tid.isEmpty then [48, 48, 48, 48, 48, 48, 48, 48] else tid }
+  | _, _, _, _, _, _, _ => none
+
+def parseFault (s : String) : Option Fault :=
+  if s = "close" then some .close else if s = "nack" then some .nack else if s = "stall" then some .stall
+  else if s.startsWith "garbage:" then (parseHex (s.drop 8).toString).map .garbage else none
+
+def parseScript (s : String) : Option World :=
+  let toks := (s.splitOn " ").filter (fun t => t ≠ "" ∧ t ≠ "-")
+  toks.foldlM (fun (w : World) tok =>
+    if tok.startsWith "serial=" then (parseHex (tok.drop 7).toString).map fun b => { w with serial := b }
+    else if tok.startsWith "tid=" then (parseHex (tok.drop 4).toString).map fun b => { w with tid := b }
+    else if tok.startsWith "conn=" then some { w with connects := (tok.drop 5).toString.splitOn "," }
+    else if tok.startsWith "r:" then
+      match (tok.drop 2).toString.splitOn "=" with
+      | [kind, lists] =>
+        let entries := lists.splitOn "|"
+        (entries.mapM fun e => if e = "-" then some [] else (e.splitOn "+").mapM parseHex).map fun q =>
+          { w with queues := w.queues ++ [(kind, q)] }
+      | _ => none
+    else if tok.startsWith "f:" then
+      match (tok.drop 2).toString.splitOn "=" with
+      | [pos, what] =>
+        match pos.splitOn ".", parseFault what with
+        | [k, j], some f => match k.toNat?, j.toNat? with
+          | some k, some j => some { w with faults := w.faults ++ [((k, j), f)] }
+          | _, _ => none
+        | _, _ => none
+      | _ => none
+    else none) ({} : World)
+
+def showCErr : CErr → String
+  | .zvt e => errName e
+  | .unexpectedPacket => "unexpectedPacket"
+  | .activeMax => "activeTx:max"
+  | .activeInUse => "activeTx:inuse"
+  | .noCard => "noCard"
+  | .unknownToken t => "unknownToken:" ++ hexOf (utf8Encode t)
+  | .needsPin => "needsPin"
+  | .other m => "other:" ++ hexOf (utf8Encode (m.toList.map Char.toNat))
+
+def showUnit (r : CRes Unit) : String :=
+  match r with
+  | .ok _ => "ok"
+  | .error e => "err " ++ showCErr e
+
+def decStr (n : Nat) : List Nat := (toString n).toList.map Char.toNat
+
+def padZeros (w : Nat) (n : Nat) : List Nat :=
+  let d := decStr n
+  List.replicate (w - d.length) 48 ++ d
+
+def showOptStr (o : Option (List Nat)) : String :=
+  match o with
+  | none => "none"
+  | some cs => hexOf (utf8Encode cs)
+
+def showOptNum (o : Option Nat) : String :=
+  match o with
+  | none => "none"
+  | some n => toString n
+
+def runCalls (cfg : Cfg) : List String → Client → World → List String → List String × World
+  | [], _, w, acc => (acc.reverse, w)
+  | call :: rest, cl, w, acc =>
+    let fields := call.splitOn ":"
+    let tok := (fields[1]?.bind strOfHex).getD []
+    let (r, cl, w) : String × Client × World :=
+      match fields[0]? with
+      | some "new" => let (_, cl, w) := configure cfg {} w; ("ok", cl, w)
+      | some "configure" => let (r, cl, w) := configure cfg cl w; (showUnit r, cl, w)
+      | some "readcard" =>
+        let (r, w) := readCard cfg w
+        ((match r with
+          | .ok .bank => "ok bank"
+          | .ok (.member id) => "ok member:" ++ hexOf (utf8Encode id)
+          | .error e => "err " ++ showCErr e), cl, w)
+      | some "begin" => let (r, cl, w) := beginTx cfg cl tok w; (showUnit r, cl, w)
+      | some "cancel" => let (r, cl, w) := cancelTx cfg cl tok w; (showUnit r, cl, w)
+      | some "commit" =>
+        let amount := (fields[2]?.bind (·.toNat?)).getD 0
+        let (r, cl, w) := commitTx cfg cl tok amount w
+        ((match r with
+          | .ok s => s!"ok tid={showOptStr (s.terminalId.map decStr)} amount={showOptNum s.amount} trace={showOptNum s.trace} date={showOptStr (s.date.map (padZeros 4))} time={showOptStr (s.time.map (padZeros 6))}"
+          | .error e => "err " ++ showCErr e), cl, w)
+      | _ => ("bad-call", cl, w)
+    runCalls cfg rest cl w (s!"{r}@{w.now}" :: acc)
+
+def opClient (line : String) : String :=
+  match (line.drop 7).toString.splitOn ";" with
+  | [c, calls, script] =>
+    match parseCfg c, parseScript script with
+    | some cfg, some w =>
+      let (res, w) := runCalls cfg ((calls.splitOn " ").filter (· ≠ "")) {} w []
+      let w := match w.conn with
+        | some c => dropConn w c
+        | none => w
+      let logs := w.logs.zipIdx.map fun (l, k) => s!"c{k}:" ++ ",".intercalate l
+      " | ".intercalate res ++ " || " ++ " | ".intercalate logs
+    | _, _ => "bad-op"
+  | _ => "bad-op"
+
 def handle (line : String) : String :=
+  if line.startsWith "client " then opClient line.trimAscii.toString else
   match line.trimAscii.toString.splitOn " " with
   | ["len.ser", style, n] =>
     match parseLen style, n.toNat? with
